@@ -48,24 +48,22 @@ def run(ctx):
             tid = {name: t for t, name, x in tops}.get("l.box")
             out = run_lines_resilient(u.gen.exe, [], [f"rw2 {tid} l.box 00"], timeout=300)
             if not out or not out[0].startswith("ok "):
-                ubad.append((u.name, f"rw2 {tid} l.box 00", out[0] if out else "no output", "C03:write-of-default-object-does-not-terminate:l.box"))
+                ubad.append((u.name, f"rw2 {tid} l.box 00", out[0] if out else "no output", f"C03:{NONTERM}:l.box"))
             with lock:
                 bad.extend(ubad)
             return
-        rc, wf_out, err = run_lines(ref, [str(u.ir_path)], ["wf"])
-        modelled = wf_out == ["ok true"]
-        notes = ir_notes(u.ins)
-        if not modelled or notes:
-            modelled = False
+        mv = ModelView(u, ref)
+        d = mv.describe(u, tops)
+        if d:
             with lock:
                 stats["units_outside_model"] += 1
-                skipped.append({"unit": u.name, "why": "wf2 is false for the dump (infinite default object, non-TL1 primitive in use, or side information inconsistent)" if not notes else "; ".join(notes[:5]),
-                                "types": [name for tid, name, x in tops][:40]})
+                skipped.append(d)
         src = Sources(u, tops, rng, ref)
         st = {"schemas": 1, "types": len(tops), "valid_values": 0, "mutated_inputs": 0, "random_inputs": 0, "rw_ops": 0, "idem_ops": 0, "go_accepts_mutated": 0}
         valid = [(tid, name, h, "go-random-value") for tid, name, h in src.go_random(nrand)]
         for l, o in src.write_crashes:
-            ubad.append((u.name, l, o, f"C03:write-crash:{u.name}:{l.split(' ')[1]}"))
+            nm = l.split(" ")[1]
+            ubad.append((u.name, l, o, crash_sig("C03", mv, u, src.tid_of[nm], nm, o)))
         tv, e = src.tl1_values(ntl1)
         if e:
             uerr.append((u.name, e))
@@ -77,7 +75,8 @@ def run(ctx):
                 g = l.split(" ")
                 valid.append((int(g[2]), g[3], f[2], "tl1-decoded-value"))
             elif o.startswith(("panic", "crash")):
-                ubad.append((u.name, l, o, f"C03:panic:{u.name}:{l.split(' ')[3]}"))
+                g = l.split(" ")
+                ubad.append((u.name, l, o, crash_sig("C03", mv, u, g[2], g[3], o)))
         st["valid_values"] = len(valid)
         ops = [(f"rw2 {tid} {name} {h}", kind) for tid, name, h, kind in valid]
         for tid, name, h, kind in valid:
@@ -93,18 +92,16 @@ def run(ctx):
                 st["random_inputs"] += 1
         lines = [o[0] for o in ops]
         go = run_lines_resilient(u.gen.exe, [], lines, timeout=900)
-        mo = None
-        if modelled:
-            rc1, mo, err1 = run_lines(ref, [str(u.ir_path)], lines)
-            if rc1 != 0 or len(mo) != len(lines):
-                uerr.append((u.name, f"model driver failed: rc={rc1} {err1[-300:]}"))
-                mo = None
+        mo, e = model_run(ref, mv, lines, 1)
+        if e:
+            uerr.append((u.name, e))
         st["rw_ops"] = len(lines)
+        st["model_ops"] = sum(1 for m in (mo or []) if m is not None)
         idem = []
         for i, ((l, kind), g) in enumerate(zip(ops, go)):
             f = l.split(" ")
             if g.startswith(("panic", "crash", "driver-error")):
-                ubad.append((u.name, l, g, f"C03:panic:{u.name}:{f[2]}"))
+                ubad.append((u.name, l, g, crash_sig("C03", mv, u, f[1], f[2], g)))
                 continue
             if kind in ("go-random-value", "tl1-decoded-value"):
                 n = 0 if f[3] == "-" else len(f[3]) // 2
@@ -114,7 +111,7 @@ def run(ctx):
                 st["go_accepts_mutated"] += 1
             if g.startswith("ok "):
                 idem.append(f"idem2 {f[1]} {f[2]} {f[3]}")
-            if mo is not None and mo[i] != g:
+            if mo is not None and mo[i] is not None and mo[i] != g:
                 umism.append((u.name, l, mo[i], g))
         io = run_lines_resilient(u.gen.exe, [], idem, timeout=900)
         st["idem_ops"] = len(idem)
@@ -134,7 +131,7 @@ def run(ctx):
                 for _ in range(2):
                     j = rng.randrange(len(lines))
                     samples.append({"schema": u.name, "kind": ops[j][1], "op": trunc(lines[j], 200), "go": trunc(go[j], 120),
-                                    "model": trunc(mo[j], 120) if mo else "(unit outside the model)"})
+                                    "model": trunc(mo[j], 120) if mo and mo[j] is not None else "(type outside the model)"})
 
     with ThreadPoolExecutor(max_workers=8) as ex:
         list(ex.map(work, units))
@@ -157,6 +154,7 @@ def run(ctx):
         "op_kinds": {"rw2": stats["rw_ops"], "idem2": stats["idem_ops"]},
         "stats": stats, "correspondence": CORR, "correspondence_mismatches": len(mism), "oracle_failures": len(bad),
         "outside_model": skipped or "none: every unit's dump satisfies wf2",
+        "model_ops": stats.get("model_ops", 0),
         "not_modelled": ["TL2-origin (.tl2) schemas: bit arrays, byte/uint64/bit primitives, omitted `_` fields, TL2 aliases",
                          "bytes versions of generated types (--generateByteVersions)", "error classification (every read error is one verdict)",
                          "union elements without fields as stand-alone factory objects (their TL2 methods are no-ops of the registry item)"],
